@@ -157,6 +157,19 @@ def step (s : St) (line : String) : St × String :=
         | .rejValidate => "rejected:validate" | .rejVerify => "rejected:verify"
         | .rejGenesis => "rejected:genesis" | .panics => "panic"
       (s, s!"p2plib {v}")
+  | "p2pstale" =>
+    -- the real sync service restarted on a store whose genuine head is `age` hours old; `tp` = the trusting period
+    -- (hours) the run is told, `now` = the op line's clock (ns)
+    match headerStage { keyOk := o.bool "tkeyok", hdrSigOk := false, dataSigOk := false } (o.bytes "head") with
+    | .ok hd =>
+      if o.nat "now" = 0 then (s, "bad-op") else
+      match headerStage (oracleOf o) (o.bytes "blob") with
+      | .ok _ =>
+        let tp : Int := (o.nat "tp" : Int) * 3600000000000
+        let h := staleStoreHead tp (o.nat "now" : Int) (oracleOf o) hd (o.bytes "blob")
+        (s, s!"p2pstale head={h} {if h > hd.header.height then "adopted" else "kept"}")
+      | _ => (s, "p2pstale undecodable")
+    | _ => (s, "bad-op")
   | "p2pboot" =>
     let v := match p2pBootAdmit (oracleOf o) s.proposer (o.bytes "blob") with
       | .accepted => "stored" | .rejDecode => "rejected:decode" | .rejValidate => "rejected:validate"
